@@ -2,6 +2,7 @@ package checks
 
 import (
 	"math/rand/v2"
+	"reflect"
 	"strconv"
 	"strings"
 
@@ -132,6 +133,12 @@ func volTemplates(e *eco.Eco, domain func(string) bool, strs []string, r *rand.R
 // need no reference are checked: kept object == fresh parse of its text, and transitivity over (i, i+1, i+off)).
 // Violations carry op "volume" and args [streamKey, V, detail...]; they are re-evaluated by re-running the workload.
 func volumeRun(c *core.Ctx, w *core.W, e *eco.Eco, domain func(string) bool, cmp func(a, b string) (int, string, bool), pair func(a, b string) []core.Violation, key string, V int) []core.Violation {
+	// a size threshold that a change wrote into this ecosystem's sources (a literal not in the baseline dictionary, e.g.
+	// 1 << 20) raises the volume above it: each template must produce more distinct strings than the threshold
+	if thr := gen.DeltaThreshold(e.Name, 100000, uint64(c.Scale(3000000, 20000000))); thr > 0 && uint64(V) < thr*23/10 {
+		V = int(thr * 23 / 10)
+		w.Count("volume_raised_above_new_source_literal:"+e.Name, int64(thr))
+	}
 	r := c.Rand("volume", e.Name, key)
 	var out []core.Violation
 	perRule := map[string]int{}
@@ -205,6 +212,109 @@ func volumeRun(c *core.Ctx, w *core.W, e *eco.Eco, domain func(string) bool, cmp
 		}
 		w.Count("volume_distinct_strings_parsed_and_kept", int64(per))
 		w.Count("events:NewVersion", int64(per))
+	}
+	// field-guided pairs: integer fields of the parsed objects that look like digests (almost every kept object has its own
+	// value) are read through reflection; two DIFFERENT kept versions with the same value in such a field are compared.
+	// The field only GUIDES the search (a 32-bit digest collides ~10 times among 280 000 objects, and no all-pairs
+	// comparison could find those pairs); the verdict is the reference model's / the order laws'.
+	for ti, t := range tpls {
+		for _, pr := range digestFieldPairs(kept[ti]) {
+			i, j := pr[0], pr[1]
+			a, b := kept[ti][i], kept[ti][j]
+			got, pn := eco.SafeCompare(a, b)
+			w.Count("evaluations", 1)
+			w.Count("volume_digest_field_guided_pairs", 1)
+			sa, sb := t.at(i), t.at(j)
+			if pn != nil {
+				rep("panic", pn.Value, "", sa, sb)
+				continue
+			}
+			if cmp != nil {
+				if want, rule, claimed := cmp(sa, sb); claimed && sgn(got) != want {
+					rep("after-volume:"+rule, itoa(got), itoa(want), sa, sb, "same-digest-field")
+				}
+				continue
+			}
+			if got == 0 {
+				// equal versions are interchangeable: both must stand in the same relation to their neighbours
+				for _, k := range []int{i + 1, j + 1, i - 1, j - 1, (i + j) / 2} {
+					if k < 0 || k >= per || k == i || k == j || kept[ti][k] == nil {
+						continue
+					}
+					x, _ := eco.SafeCompare(a, kept[ti][k])
+					y, _ := eco.SafeCompare(b, kept[ti][k])
+					if x != y {
+						if inheritedNonTransitive(e, []string{sa, sb, t.at(k)}) {
+							break
+						}
+						rep("after-volume:transitivity", "cmp(a,b)=0 cmp(a,c)="+itoa(x)+" cmp(b,c)="+itoa(y), "a==b implies cmp(a,c)==cmp(b,c)", sa, sb, t.at(k), "same-digest-field")
+						break
+					}
+				}
+			}
+		}
+	}
+	// the same search over plain tuples x.y.z (x < 60, y < 100, z < 100; thorough x < 300): counter templates differ in a
+	// few trailing bytes only, which multiplicative digests map almost injectively; widely varying tuples collide at the
+	// birthday rate (~40 pairs per 32-bit digest among 600 000)
+	if key != "c19" {
+		nx := c.Scale(60, 200)
+		ms := gen.MarkerTable[e.Name]
+		marks := []string{""}
+		for _, m := range ms.Pre {
+			if len(marks) < 3 {
+				marks = append(marks, m)
+			}
+		}
+		if len(ms.Post) > 0 {
+			marks = append(marks, ms.Post[0])
+		}
+		nm := len(marks)
+		tup := func(i int) string {
+			t := i / nm
+			s := itoa(t/10000) + "." + itoa(t/100%100) + "." + itoa(t%100) + marks[i%nm]
+			if e.Name == "golang" {
+				return "v" + s
+			}
+			return s
+		}
+		tk := make([]eco.Ver, nx*10000*nm)
+		okN := 0
+		for i := range tk {
+			if s := tup(i); domain == nil || domain(s) {
+				if v, err, pn := e.SafeNewVersion(s); pn == nil && err == nil && v != nil {
+					tk[i] = v
+					okN++
+				}
+			}
+		}
+		w.Count("volume_plain_tuples_parsed_and_kept", int64(okN))
+		for _, pr := range digestFieldPairs(tk) {
+			i, j := pr[0], pr[1]
+			got, pn := eco.SafeCompare(tk[i], tk[j])
+			w.Count("evaluations", 1)
+			w.Count("volume_digest_field_guided_pairs", 1)
+			if pn != nil {
+				rep("panic", pn.Value, "", tup(i), tup(j))
+				continue
+			}
+			// plain tuples: the integer tuple order is every ecosystem's order for them (C03), i < j
+			want := -1
+			if cmp != nil {
+				if wv, rule, claimed := cmp(tup(i), tup(j)); claimed && sgn(got) != wv {
+					rep("after-volume:"+rule, itoa(got), itoa(wv), tup(i), tup(j), "same-digest-field")
+				}
+				continue
+			}
+			if got == 0 && i != j {
+				x, _ := eco.SafeCompare(tk[i], tk[(i+j)/2])
+				y, _ := eco.SafeCompare(tk[j], tk[(i+j)/2])
+				if x != y && tk[(i+j)/2] != nil {
+					rep("after-volume:transitivity", "cmp(a,b)=0 cmp(a,c)="+itoa(x)+" cmp(b,c)="+itoa(y), "a==b implies cmp(a,c)==cmp(b,c)", tup(i), tup(j), tup((i+j)/2), "same-digest-field")
+				}
+			}
+			_ = want
+		}
 	}
 	sample := c.Scale(6000, 40000)
 	for ti, t := range tpls {
@@ -307,6 +417,10 @@ var _ = rand.IntN
 // table over the implementation's own Compare. Bound caches, parsed-range memo tables and recycled range objects are
 // correct until they fill.
 func volumeRanges(c *core.Ctx, w *core.W, e *eco.Eco, syn cmpSyntax, key string, V int) []core.Violation {
+	if thr := gen.DeltaThreshold(e.Name, 100000, uint64(c.Scale(3000000, 20000000))); thr > 0 && uint64(V) < thr*23/10 {
+		V = int(thr * 23 / 10)
+		w.Count("volume_raised_above_new_source_literal:"+e.Name, int64(thr))
+	}
 	r := c.Rand("volume-ranges", e.Name, key)
 	var out []core.Violation
 	perRule := map[string]int{}
@@ -461,6 +575,71 @@ func volumeRanges(c *core.Ctx, w *core.W, e *eco.Eco, syn cmpSyntax, key string,
 					}
 				}
 			}
+		}
+	}
+	return out
+}
+
+// digestFieldPairs returns index pairs of kept objects that agree in an integer field which takes (almost) as many
+// distinct values as there are objects.
+func digestFieldPairs(kept []eco.Ver) [][2]int {
+	var first eco.Ver
+	for _, v := range kept {
+		if v != nil {
+			first = v
+			break
+		}
+	}
+	if first == nil {
+		return nil
+	}
+	rv := reflect.ValueOf(first.Raw())
+	for rv.Kind() == reflect.Ptr || rv.Kind() == reflect.Interface {
+		if rv.IsNil() {
+			return nil
+		}
+		rv = rv.Elem()
+	}
+	if rv.Kind() != reflect.Struct {
+		return nil
+	}
+	var out [][2]int
+	for f := 0; f < rv.NumField(); f++ {
+		k := rv.Field(f).Kind()
+		isU := k == reflect.Uint32 || k == reflect.Uint64 || k == reflect.Uint || k == reflect.Uint16
+		isI := k == reflect.Int32 || k == reflect.Int64 || k == reflect.Int
+		if !isU && !isI {
+			continue
+		}
+		seen := make(map[uint64]int32, len(kept))
+		var pairs [][2]int
+		n := 0
+		for i, v := range kept {
+			if v == nil {
+				continue
+			}
+			ev := reflect.ValueOf(v.Raw())
+			for ev.Kind() == reflect.Ptr || ev.Kind() == reflect.Interface {
+				ev = ev.Elem()
+			}
+			var val uint64
+			if isU {
+				val = ev.Field(f).Uint()
+			} else {
+				val = uint64(ev.Field(f).Int())
+			}
+			n++
+			if j, ok := seen[val]; ok {
+				if len(pairs) < 4000 {
+					pairs = append(pairs, [2]int{int(j), i})
+				}
+			} else {
+				seen[val] = int32(i)
+			}
+		}
+		// a digest-like field: at least 9 of 10 objects have their own value, yet some share one
+		if n > 1000 && len(seen)*10 >= n*9 && len(pairs) > 0 {
+			out = append(out, pairs...)
 		}
 	}
 	return out
